@@ -159,7 +159,7 @@ def run(ctx):
             else:
                 ctx.violation({"sequence": rec["detail"]}, "fault sequence %s: %s" % (rec["detail"], rejects[rec["tid"]]))
     return ctx.finish(
-        rule="The Applicable table (185 entry-point x fault-class pairs over forecasters, composites, reducers, "
+        rule="The Applicable table (186 entry-point x fault-class pairs over forecasters, composites, reducers, "
              "splitters, evaluate, tuning, temporal_train_test_split and ForecastingHorizon) is frozen in "
              "Validation.tla; every pair is executed in 3 (20) random valid contexts as a faulty call and as its control "
              "(same call with only the offending aspect repaired) and TraceValidation.tla requires: rejected with "
